@@ -729,6 +729,11 @@ func (fv *FnV) evalSpecCall(st *State, call *ast.CallExpr, name string, o *types
 			os = sf.oldSt
 		}
 		return Val{fmt.Sprintf("(and (not (= %s 0)) (not (select %s %s)) (select %s %s))", a.T, fv.heapGet(os, "$alloc"), a.T, fv.heapGet(st, "$alloc"), a.T), rt}
+	case "allocated":
+		// the reference denotes an object that exists in the current state (a fact of the heap model: every
+		// pointer a Go program can hold is nil or allocated; stated explicitly where a proof needs it)
+		a := fv.eval(st, call.Args[0])
+		return Val{fmt.Sprintf("(and (not (= %s 0)) (select %s %s))", a.T, fv.heapGet(st, "$alloc"), a.T), rt}
 	case "same":
 		a := fv.eval(st, call.Args[0])
 		b := fv.eval(st, call.Args[1])
@@ -1010,6 +1015,11 @@ func (fv *FnV) evalClauseStep(st *State, cl *Clause, li *loopInfo, start *State)
 
 // evalClauseAt evaluates a clause at a program point: locals resolved by scope lookup.
 func (fv *FnV) evalClauseAt(st *State, cl *Clause, pos token.Pos) string {
+	return fv.evalClauseAtPre(st, cl, pos, fv.entry)
+}
+
+// evalClauseAtPre: like evalClauseAt, with old(e) evaluated in the given earlier state
+func (fv *FnV) evalClauseAtPre(st *State, cl *Clause, pos token.Pos, pre *State) string {
 	fr := fv.cur()
 	cur := map[string]Val{}
 	old := map[string]Val{}
@@ -1017,8 +1027,8 @@ func (fv *FnV) evalClauseAt(st *State, cl *Clause, pos token.Pos) string {
 		if v, ok := st.vars[obj]; ok {
 			cur[name] = v
 		}
-		if fv.entry != nil {
-			if v, ok := fv.entry.vars[obj]; ok {
+		if pre != nil {
+			if v, ok := pre.vars[obj]; ok {
 				old[name] = v
 			}
 		}
@@ -1036,7 +1046,22 @@ func (fv *FnV) evalClauseAt(st *State, cl *Clause, pos token.Pos) string {
 			}
 		}
 	}
-	return fv.evalWithEnv(st, cl, cur, old, fv.entry)
+	if pre != fv.entry && pre != nil {
+		// locals in scope at the anchor: their values before the statement
+		if scope != nil {
+			for _, p := range fv.clauseParams(cl) {
+				if _, ok := old[p.Name()]; ok {
+					continue
+				}
+				if _, obj := scope.LookupParent(p.Name(), pos); obj != nil {
+					if v, ok := pre.vars[obj]; ok {
+						old[p.Name()] = v
+					}
+				}
+			}
+		}
+	}
+	return fv.evalWithEnv(st, cl, cur, old, pre)
 }
 
 // evalClauseEntry: clause over entry values of parameters (requires, panics)
